@@ -53,6 +53,8 @@ TActEnd ==
     /\ P!ActEnd(Ev.g)
     /\ (loc'[Ev.g] = "delayed") = Ev.delayed
 
+TDelayPush == IsEv("DelayPush") /\ Ev.g \in Groups /\ P!DelayPush(Ev.g)
+
 TItem ==
     /\ IsEv("Item") /\ Ev.g \in Groups
     /\ P!Item(Ev.g)
@@ -106,7 +108,7 @@ TSilentDrain ==
     /\ UNCHANGED <<l, decVal>>
 
 TNext ==
-    \/ TScopeBegin \/ TActBegin \/ TSendLocal \/ TSend \/ TErr \/ TActEnd \/ TItem \/ TFail
+    \/ TScopeBegin \/ TDelayPush \/ TActBegin \/ TSendLocal \/ TSend \/ TErr \/ TActEnd \/ TItem \/ TFail
     \/ TSlotPark \/ TSlotSwap \/ TTaskStart \/ TActDec \/ TDelayPop \/ TScopeEnd \/ TSilentDrain \/ TSilentDec
 
 TSpec == TInit /\ [][TNext]_tvars
